@@ -26,11 +26,13 @@ CONSTANTS Emit,        \* print behaviours
           UdpMinLen,   \* datagrams shorter than this are refused outright (7 conforming; 10 = deviation)
           Full,        \* TRUE: full product of greeting x request classes; FALSE: stage-wise
           DLens,       \* domain length representatives, e.g. {0,1,2,7,255} (7 stands for "mid")
-          Chunkings,   \* subset of {"all","msg","bytes","split"}
+          Chunkings,   \* subset of {"all","msg","bytes","split"} for complete messages
+          CutChunkings,\* ... and for truncated ones
           WithUdp
 
-VARIABLES c, ch, stream, bounds, pc, pos, got, want, fs, wrote, out, dev
-vars == <<c, ch, stream, bounds, pc, pos, got, want, fs, wrote, out, dev>>
+VARIABLES c, ch, stream, bounds, ref, pc, pos, got, want, fs, wrote, out, dev
+\* (ref = what the byte-level reference assigns to `stream`; computed once per case, never changed)
+vars == <<c, ch, stream, bounds, ref, pc, pos, got, want, fs, wrote, out, dev>>
 
 Min(a, b) == IF a < b THEN a ELSE b
 Flat(ss) == LET F[i \in 0..Len(ss)] == IF i = 0 THEN <<>> ELSE F[i - 1] \o ss[i] IN F[Len(ss)]
@@ -170,9 +172,10 @@ NoOut == [ok |-> FALSE, cmd |-> 0, atyp |-> 0, addr |-> <<>>, port |-> 0]
 ErrReply(rep) == <<5, rep, 0, 1, 0, 0, 0, 0, 0, 0>>
 
 Init == /\ c \in Cases
-        /\ ch \in (IF c.kind = "hs" THEN Chunkings ELSE {"dgram"})
+        /\ ch \in (IF c.kind # "hs" THEN {"dgram"} ELSE IF c.cut.f = "none" THEN Chunkings ELSE CutChunkings)
         /\ stream = Stream(c)
         /\ bounds = Bounds(c, ch)
+        /\ ref = IF c.kind = "hs" THEN RefHs(stream, Profile(c.prof)) ELSE RefUdp(stream)
         /\ pc = IF c.kind = "hs" THEN "g_hdr" ELSE "u_parse"
         /\ pos = 0 /\ got = 0 /\ fs = 0
         /\ want = 2
@@ -182,7 +185,7 @@ P == Profile(c.prof)
 BehOf == [kind |-> c.kind, prof |-> c.prof, ver1 |-> c.ver1, nm |-> c.nm, mset |-> c.mset, auth |-> c.auth,
           ver2 |-> c.ver2, cmd |-> c.cmd, rsv |-> c.rsv, atyp |-> c.atyp, dlen |-> c.dlen, frag |-> c.frag,
           pay |-> c.pay, trail |-> c.trail, cut |-> c.cut, chunk |-> ch,
-          want |-> IF c.kind = "hs" THEN HsClass(RefHs(stream, P)) ELSE UdpClass(RefUdp(stream), stream)]
+          want |-> IF c.kind = "hs" THEN HsClass(ref) ELSE UdpClass(ref, stream)]
 EmitBeh == IF Emit THEN PrintT("BEH " \o ToJson(BehOf)) ELSE TRUE
 
 Stop(w, o) == /\ pc' = "done" /\ wrote' = w /\ out' = o /\ want' = 0 /\ fs' = pos' /\ EmitBeh
@@ -227,7 +230,7 @@ ConnRead ==
      /\ IF got + k = want
         THEN got' = 0 /\ Decide(SubSeq(stream, fs + 1, fs + want))
         ELSE got' = got + k /\ UNCHANGED <<pc, want, fs, wrote, out>>
-  /\ UNCHANGED <<c, ch, stream, bounds, dev>>
+  /\ UNCHANGED <<c, ch, stream, bounds, ref, dev>>
 
 \* DEVIATION greedy greeting: io.ReadAtLeast(conn, buf[257], 2); METHODS are taken from the buffer,
 \* whatever else the chunk held is consumed and dropped
@@ -248,13 +251,13 @@ ConnReadGreedy ==
                             w == wrote \o <<5, sel>>
                         IN IF sel = 255 THEN Stop(w, out)
                            ELSE IF sel = 2 THEN Go("a_hdr", 2, w, out) ELSE Go("r_hdr", 4, w, out)
-  /\ UNCHANGED <<c, ch, stream, bounds>>
+  /\ UNCHANGED <<c, ch, stream, bounds, ref>>
 
 \* the application has closed its side: a field cannot be completed
 ConnEOF ==
   /\ pc \notin {"done", "u_parse"} /\ pos = Len(stream)
   /\ pos' = pos /\ got' = 0 /\ Stop(wrote, NoOut)
-  /\ UNCHANGED <<c, ch, stream, bounds, dev>>
+  /\ UNCHANGED <<c, ch, stream, bounds, ref, dev>>
 
 \* UDP request header: length checks per address type on the whole datagram
 ImplUdp(d) ==
@@ -271,9 +274,9 @@ ImplUdp(d) ==
 UdpParse ==
   /\ pc = "u_parse"
   /\ pos' = Len(stream) /\ got' = 0
-  /\ dev' = (Len(stream) < UdpMinLen /\ RefUdp(stream).st = "result")
+  /\ dev' = (Len(stream) < UdpMinLen /\ ref.st = "result")
   /\ Stop(wrote, ImplUdp(stream))
-  /\ UNCHANGED <<c, ch, stream, bounds>>
+  /\ UNCHANGED <<c, ch, stream, bounds, ref>>
 
 Done == pc = "done" /\ UNCHANGED vars          \* terminal states stutter, so TLC's deadlock check means "stuck"
 Next == ConnRead \/ ConnReadGreedy \/ ConnEOF \/ UdpParse \/ Done
@@ -293,10 +296,10 @@ UdpObs == LET pl == IF out.ok THEN Rest(stream, out.cmd) ELSE <<>>
 \* the parser's outcome is the reference's, for every path, truncation and chunking (or a named deviation fired)
 Conforms == pc = "done" =>
               \/ dev
-              \/ IF c.kind = "hs" THEN HsViol(RefHs(stream, P), HsObs) = {}
-                 ELSE UdpViol(RefUdp(stream), stream, UdpObs) = {}
+              \/ IF c.kind = "hs" THEN HsViol(ref, HsObs) = {}
+                 ELSE UdpViol(ref, stream, UdpObs) = {}
 \* never reads past the message, at any step
-NoReadPast == c.kind = "hs" => (dev \/ LET r == RefHs(stream, P) IN pos <= (IF r.result THEN r.used ELSE r.extent))
+NoReadPast == c.kind = "hs" => (dev \/ pos <= (IF ref.result THEN ref.used ELSE ref.extent))
 \* every input terminates in a result or a rejection
 \* (no deadlock before "done": CHECK_DEADLOCK; every step consumes input or finishes:)
 StepsAdvance == [][pc' = "done" \/ pos' > pos]_vars
@@ -325,13 +328,13 @@ ExpectWhy(x) ==
      ELSE IF cutAt(Q) THEN "request-trunc"
      ELSE IF x.cmd \notin Profile(x.prof).cmds THEN "request-rej"
      ELSE "result"
-ExpectFixed == c.kind = "hs" => ExpectWhy(c) = Why(RefHs(stream, P))
+ExpectFixed == c.kind = "hs" => ExpectWhy(c) = Why(ref)
 
 \* UDP: Build(Parse(h)) = h for canonical headers, Parse(Build(r)) = r for every result
 UdpRoundTrip ==
   c.kind = "udp" =>
-    LET u == RefUdp(stream) IN
-    u.st = "result" =>
+    LET u == ref IN
+    (pc = "u_parse" /\ u.st = "result") =>
       LET b == BuildUdp(u.atyp, u.addr, u.port, Rest(stream, u.pay))
           v == RefUdp(b)
       IN /\ (stream[1] = 0 /\ stream[2] = 0) => b = stream
